@@ -199,7 +199,11 @@ func (g *concGen) clientCall() *concCall {
 		co.ContentType = "application/x-protobuf"
 	}
 	var call drv.CallOpts
-	switch r.Intn(5) {
+	// a caller may create an option value once and hand it to many calls, alone or next to others
+	call.Reuse = r.Intn(2) == 0
+	switch r.Intn(6) {
+	case 5:
+		call.Headers = [][2]string{{"X-Trace", pick(r, "t1", "t2")}, {"X-Extra", pick(r, "e1", "e2")}}
 	case 0:
 		call.Headers = [][2]string{{"X-Trace", pick(r, "t1", "t2", "t3")}}
 	case 1:
@@ -450,6 +454,7 @@ func checkC17(c *chk.Ctx) {
 		op := cc.op
 		op.Case, op.Call, op.Fresh = id, 1, true
 		op.ClientOpts.Shared = ""
+		op.CallOpts.Reuse = false
 		op.Handler = drv.HandlerCfg{Kind: "ok", RespType: "cc.v1.Out", RespB64: respFor(em.Built, cc.key)}
 		refOps = append(refOps, op)
 		refID[k] = id
